@@ -109,6 +109,11 @@ func c01Gen(c *rt.Ctx) c01Case {
 			pred = gen.Or(pred, cmp)
 		}
 	}
+	if r.Chance(1, 25) {
+		ps, p := highByteCase(r)
+		st, pred = &gen.Store{Family: gen.FBinary, Pairs: ps}, p
+		c.Rec.Inc("high_byte_literals")
+	}
 	style := gen.Style{Paren: []int{0, 1, 3}[r.Intn(3)], R: r.Fork(), Case: r.Chance(1, 3)}
 	return c01Case{store: st, pred: pred, query: "select * where " + style.Print(pred)}
 }
